@@ -26,7 +26,7 @@ ASSUMPTIONS = ["layout as described in README.md 'Working with objects' / hashst
 
 
 def examples(tier):
-    return 500 if tier == "quick" else 6000
+    return 500 if tier == "quick" else 20000
 
 
 def _cfg():
